@@ -104,8 +104,9 @@ FineFlat  == {K(k, <<OPEN>> \o f \o <<CLOSE>>) : k \in {"TimeInterval", "Point"}
              \cup {K("BoundingBox", <<OPEN>> \o f \o <<CLOSE>>) : f \in [1..4 -> {1, 5, 6, 4999999}]}
              \cup {K(k, <<a>>) : k \in Kinds, a \in FineCodes}
 FineBase  == IF Cov THEN {c \in FineSkeletons : c.kind \in {"BoundingBox", "MultiLineString"}} ELSE FineSkeletons \cup FineFlat
-BaseCases     == IF Cov THEN ScalarCases \cup SkelCases \cup CrossCases
-                 ELSE FlatCases \cup ScalarCases \cup NestCases \cup PointCases \cup MemberCases \cup SkelCases \cup CrossCases
+MissingCases  == {K(k, <<ABSENT>>) : k \in Kinds}              \* the coordinates field is absent altogether: never a geometry
+BaseCases     == IF Cov THEN MissingCases \cup ScalarCases \cup SkelCases \cup CrossCases
+                 ELSE MissingCases \cup FlatCases \cup ScalarCases \cup NestCases \cup PointCases \cup MemberCases \cup SkelCases \cup CrossCases
 \* number of successive single-position faults applied to a base case (skeletons only)
 Budget(c)     == IF c \in FineSkeletons THEN 1
                  ELSE IF c \notin Skeletons THEN 0
@@ -140,8 +141,9 @@ Export == Done => PrintT(<<"CASE", ToJson([kind |-> kind, toks |-> toks, c |-> T
 AtStart == pc = "type"                                                   \* laws of Valid / Normal are checked once per case
 IsValid == vd[2]
 FineCoding       == FineTableOK /\ (AtStart /\ num = "fine" => \A i \in DOMAIN toks : IsNum(toks[i]) => toks[i] \in FineCodes \cup {1})
-WellFormedCases  == AtStart => WellFormed(toks)                          \* the generators (incl. every edit) produce single nodes
-ParserAgrees     == AtStart => WellFormedDecl(toks) /\ (IsList(toks) => Kids(toks) = KidsDecl(toks))
+WellFormedCases  == AtStart => WellFormed(toks) \/ Missing(toks)                          \* the generators (incl. every edit) produce single nodes
+MissingIsInvalid == (AtStart /\ Missing(toks)) => ~vd[3] /\ ~Impl(kind, toks).ok        \* under every reading, and in Impl
+ParserAgrees     == (AtStart /\ ~Missing(toks)) => WellFormedDecl(toks) /\ (IsList(toks) => Kids(toks) = KidsDecl(toks))
 ImplIffValid     == (pc = "accepted" => IsValid) /\ (pc = "rejected" => ~IsValid)
 ImplIsFunction   == Done => LET r == Impl(kind, toks) IN (r.ok <=> pc = "accepted") /\ r.val = val /\ r.why = why
 ImplValueNormal  == pc = "accepted" => val = Normal(kind, toks)
